@@ -21,7 +21,9 @@ def list_units():
     return {"kernels": {"props": ["C04"], "tier": "quick", "doc": __doc__},
             "rust_statics": {"props": ["C18"], "tier": "quick", "doc": run_rust_statics.__doc__},
             "c_cache_single_store": {"props": ["C18"], "tier": "quick", "doc": run_c_cache_single_store.__doc__},
-            "c_pointer_casts": {"props": ["C07"], "tier": "quick", "doc": run_c_pointer_casts.__doc__}}
+            "c_pointer_casts": {"props": ["C07"], "tier": "quick", "doc": run_c_pointer_casts.__doc__},
+            "c_statics": {"props": ["C18", "C08"], "tier": "quick", "doc": run_c_statics.__doc__},
+            "tbb_seam": {"props": ["C08"], "tier": "quick", "doc": run_tbb_seam.__doc__}}
 
 
 def _sha(path):
@@ -268,7 +270,133 @@ def run_c_pointer_casts():
     return res
 
 
+C_STATIC_FILES = ["blake3.c", "blake3_dispatch.c", "blake3_portable.c", "blake3_impl.h", "blake3_tbb.cpp", "blake3_sse2.c",
+                  "blake3_sse41.c", "blake3_avx2.c", "blake3_avx512.c", "blake3_neon.c"]
+
+
+def c_static_objects(src):
+    """-> [(line, declaration text)] of objects with static storage duration that are not const-qualified:
+    `static` (or file-scope) VARIABLE declarations; function definitions / declarations are skipped"""
+    import re
+    src = re.sub(r"/\*.*?\*/", lambda m: re.sub(r"[^\n]", " ", m.group(0)), src, flags=re.S)
+    src = re.sub(r"//[^\n]*", lambda m: " " * len(m.group(0)), src)
+    src = re.sub(r'"(?:\\.|[^"\\])*"', '""', src)
+    out = []
+    for m in re.finditer(r"\bstatic\b", src):
+        # the declaration runs to the first `;`, `=` or `{` at depth 0; a `(` before that (outside [] ) = function
+        i, depth, is_fn = m.end(), 0, False
+        while i < len(src):
+            ch = src[i]
+            if ch == "[":
+                depth += 1
+            elif ch == "]":
+                depth -= 1
+            elif depth == 0 and ch == "(":
+                # `__attribute__((..))` / `__declspec(..)` / ALIGNAS-like macros are not declarators
+                head = src[m.end():i]
+                if re.search(r"(__attribute__|__declspec|alignas|_Alignas)\s*$", head):
+                    d2 = 0
+                    while i < len(src):
+                        if src[i] == "(":
+                            d2 += 1
+                        elif src[i] == ")":
+                            d2 -= 1
+                            if d2 == 0:
+                                break
+                        i += 1
+                    i += 1
+                    continue
+                is_fn = True
+                break
+            elif depth == 0 and ch in ";={":
+                break
+            i += 1
+        if is_fn:
+            continue
+        decl = re.sub(r"\s+", " ", src[m.start():i]).strip()
+        # preprocessor conditionals inside the declaration (blake3_dispatch.c's g_cpu_features) are dropped
+        decl = re.sub(r"#\s*(if|ifdef|ifndef|else|elif|endif|define)[^#]*?(?=\b[A-Za-z_]+\s+[A-Za-z_]|$)", " ", decl)
+        # const OBJECT: without a pointer declarator any `const` qualifies the object; with one, only a `const`
+        # after the last `*` does (`static const uint8_t *tbl[4]` is a mutable array of pointers to const)
+        tail = decl.rsplit("*", 1)[1] if "*" in decl else decl
+        if re.search(r"\bconst\b", tail):
+            continue
+        out.append((src.count("\n", 0, m.start()) + 1, decl[:160]))
+    return out
+
+
+def run_c_statics():
+    """Frame condition of C18 ("independent hashers are isolated") and of C08's "no data race" on the C side, for what
+    the sequential CBMC units cannot see when a callee is replaced by its contract or a file is outside CBMC's reach
+    (the SIMD intrinsics files, blake3_tbb.cpp): the C/C++ sources declare no object with static storage duration that
+    is not const - no `static` local scratch buffer, no memo, no file-scope variable - except the CPU feature cache
+    g_cpu_features of blake3_dispatch.c. (Objects that look thread-local through a macro count as shared: the macro
+    may expand to nothing.) Exhaustive scan of the comment-free text; one obligation per file."""
+    res = new_result("guard:c_statics", "guard", level="proof")
+    res["cmd"] = "scan of c/{%s} for non-const objects with static storage duration" % ",".join(C_STATIC_FILES)
+    res["trusted_base"] = ["textual scan (declarations hidden behind macros are seen only at the macro definition)"]
+    bad = []
+    for f in C_STATIC_FILES:
+        path = os.path.join(common.REPO, "c", f)
+        if not os.path.exists(path):
+            continue
+        objs = c_static_objects(open(path, encoding="utf-8", errors="replace").read())
+        objs = [o for o in objs if not (f == "blake3_dispatch.c" and "g_cpu_features" in o[1])]
+        res["obligations"] += 1
+        if not objs:
+            res["discharged"] += 1
+        bad += [(f, l, d) for l, d in objs]
+        res["functions_verified"].append("c/%s: no mutable object with static storage duration%s" % (
+            f, " other than g_cpu_features" if f == "blake3_dispatch.c" else ""))
+    res["samples"] = [{"obligation": "no non-const static object", "files": len(res["functions_verified"])}]
+    if not bad:
+        res["status"] = "pass"
+        return res
+    res["status"] = "fail"
+    for f, line, decl in bad[:5]:
+        res["failed"].append(failed_obligation("c/%s (static object)" % f, "assigns",
+                                               "shared mutable state introduced: `%s`" % decl[:120],
+                                               location="c/%s:%d" % (f, line),
+                                               clause="no shared mutable state other than the feature-detection cache"))
+    return res
+
+
+TBB_SEAM_FP = os.path.join(common.VERIF, "contracts", "tbb_seam_fingerprint.json")
+
+
+def run_tbb_seam():
+    """The oneTBB join seam (c/blake3_tbb.cpp, C++) is outside every contract verifier here: the C units use an ASSUMED
+    contract of blake3_compress_subtree_wide_join_tbb (each half hashed as by blake3_compress_subtree_wide into its own
+    window, both counts stored, nothing else written, no sharing between the two tasks). That assumption was made for
+    specific source text, pinned here by sha256. Changed text -> undecided with a suspect obligation; the directed
+    search decides it on the real code: the real blake3_tbb.cpp against a parallel_invoke stand-in in three orders
+    under ASan/UBSan and, for the data-race clause, concurrently under ThreadSanitizer."""
+    res = new_result("guard:tbb_seam", "guard", level="other")
+    fps = json.load(open(TBB_SEAM_FP))
+    changed = [rel for rel, want in sorted(fps.items())
+               if not os.path.exists(os.path.join(common.REPO, rel)) or _sha(os.path.join(common.REPO, rel)) != want]
+    res["cmd"] = "sha256 of %s vs contracts/tbb_seam_fingerprint.json" % ", ".join(sorted(fps))
+    res["functions_trusted"] = ["%s [assumed: oneTBB join seam]" % r for r in sorted(fps)]
+    res["trusted_base"] = ["c/blake3_tbb.cpp (pinned by sha256) is assumed to meet the seam contract of cbmc/contracts.h"]
+    if not changed:
+        res["status"] = "pass"
+        return res
+    res["undecided_reason"] = ("the oneTBB seam source changed (%s): its assumed contract was made for other text; only a "
+                               "directed search on the real code can say more" % ", ".join(changed))
+    for rel in changed[:2]:
+        fo = failed_obligation("blake3_compress_subtree_wide_join_tbb", "other",
+                               "assumed seam source %s differs from the text its contract was assumed for" % rel, location=rel)
+        fo["search"] = "c_api"
+        fo["variants"] = ["tbb_tsan", "tbb_portable", "tbb_asm"]
+        res.setdefault("suspect", []).append(fo)
+    return res
+
+
 def run_unit(name, tier="quick"):
+    if name == "c_statics":
+        return run_c_statics()
+    if name == "tbb_seam":
+        return run_tbb_seam()
     if name == "c_pointer_casts":
         return run_c_pointer_casts()
     if name == "rust_statics":
